@@ -356,7 +356,7 @@ pub fn check(c: &Case, layout: usize) -> Option<Failure> {
         text = crate::lex::items(&text).join("\n");
     } else if layout == 2 {
         // third pretty-printing: comments of several styles between the items
-        let seps = [" ", "\n", " /** banner **/ ", " -- line comment\n", "/***/", " /* a /* nested */ b */ ", "\t", " /* multi\n line */\n", "  "];
+        let seps = [" ", "\n", " /** banner **/ ", " -- line comment\n", "/***/", " /* a /* nested */ b */ ", "\t", " /* multi\n line */\n", "  ", " /* closed on a line that starts with dashes\n-- still the block comment */ ", " /* a\n-- /* nested, opened behind dashes */ b\n*/ "];
         let items = crate::lex::items(&text);
         let mut t = String::from("-- header comment\n/* block at the start */ ");
         for (k, it) in items.iter().enumerate() {
